@@ -89,6 +89,9 @@ func trsParsePOp(s string) (trsPOp, error) {
 type trsProgram struct {
 	old bool // write PDF 1.2 (AA is inheritable)
 	ops []trsPOp
+	// a content stream is open on the pdf.Writer from just before ops[streamFrom] until just
+	// before ops[streamTo] (streamTo == len(ops): until after the last operation); 0,0 = never
+	streamFrom, streamTo int
 }
 
 func (p *trsProgram) encode() string {
@@ -100,6 +103,9 @@ func (p *trsProgram) encode() string {
 	if p.old {
 		v = "1"
 	}
+	if p.streamTo > p.streamFrom {
+		v += fmt.Sprintf("@%d-%d", p.streamFrom, p.streamTo)
+	}
 	return v + " " + strings.Join(parts, ";")
 }
 
@@ -108,7 +114,12 @@ func trsDecodeProgram(s string) (*trsProgram, error) {
 	if len(f) != 2 {
 		return nil, fmt.Errorf("bad program")
 	}
-	p := &trsProgram{old: f[0] == "1"}
+	p := &trsProgram{old: strings.HasPrefix(f[0], "1")}
+	if i := strings.Index(f[0], "@"); i >= 0 {
+		if _, err := fmt.Sscanf(f[0][i:], "@%d-%d", &p.streamFrom, &p.streamTo); err != nil {
+			return nil, err
+		}
+	}
 	if f[1] == "" {
 		return p, nil
 	}
@@ -210,6 +221,7 @@ func (x *trsRange) flatten(out []int) []int {
 // ---- running a program on the implementation ----
 
 type trsPTResult struct {
+	streamErrs int // operations that failed with "... while stream is open" (state changed all the same)
 	implLine string
 	fails    []trsFail
 	pages    int
@@ -440,6 +452,32 @@ func trsRunProgram(p *trsProgram) (res trsPTResult) {
 	var outcomes strings.Builder
 	var rootRef pdf.Reference
 	rootClosed := false
+	rootFlushFailed := false
+
+	// the content stream that is open during part of the program
+	var streamRef pdf.Reference
+	var streamW interface {
+		Write([]byte) (int, error)
+		Close() error
+	}
+	openStream := func() {
+		streamRef = w.Alloc()
+		sw, err := w.OpenStream(streamRef, pdf.Dict{})
+		if err != nil {
+			panic("harness: OpenStream: " + err.Error())
+		}
+		streamW = sw
+		streamW.Write([]byte("q "))
+	}
+	closeStream := func() {
+		if streamW != nil {
+			streamW.Write([]byte("Q"))
+			if err := streamW.Close(); err != nil {
+				fail("write-error", "closing the content stream: %v", err)
+			}
+			streamW = nil
+		}
+	}
 
 	panicked := ""
 	func() {
@@ -459,7 +497,13 @@ func trsRunProgram(p *trsProgram) (res trsPTResult) {
 				fail("close-"+panicked, "panic after %d operations (%d pages so far): %s", outcomes.Len(), len(pageOp), truncate(msg))
 			}
 		}()
-		for _, o := range p.ops {
+		for opIdx, o := range p.ops {
+			if p.streamTo > p.streamFrom && opIdx == p.streamFrom {
+				openStream()
+			}
+			if p.streamTo > p.streamFrom && opIdx == p.streamTo {
+				closeStream()
+			}
 			if o.h >= len(handles) {
 				panic("harness: bad handle in program")
 			}
@@ -503,6 +547,7 @@ func trsRunProgram(p *trsProgram) (res trsPTResult) {
 					rootRef = ref
 					rootClosed = true
 				}
+				_ = ref
 			case 'n':
 				k := o.id
 				hw.NextPageNumber(func(n int) {
@@ -519,8 +564,21 @@ func trsRunProgram(p *trsProgram) (res trsPTResult) {
 				}
 			}
 			// outcome and specification
+			streamErr := err != nil && strings.Contains(err.Error(), "while stream is open")
+			if streamErr {
+				// the page tree could not flush finished objects because the caller has a
+				// stream open; the operation itself has taken place (the objects are
+				// written by a later flush)
+				res.streamErrs++
+				if streamW == nil {
+					fail("spurious-error", "operation %s: %v, but no stream is open", o, err)
+				}
+				if o.kind == 'c' && o.h == 0 {
+					rootFlushFailed = true
+				}
+			}
 			switch {
-			case err == nil:
+			case err == nil || streamErr:
 				outcomes.WriteByte('o')
 				if hs.closed && o.kind != 'n' {
 					fail("closed-accepted", "operation %s on a closed writer succeeded", o)
@@ -553,6 +611,9 @@ func trsRunProgram(p *trsProgram) (res trsPTResult) {
 			}
 		}
 	}()
+	if panicked == "" {
+		closeStream()
+	}
 	res.pages = len(pageOp)
 	logStr := "~"
 	if len(log) > 0 {
@@ -588,6 +649,12 @@ func trsRunProgram(p *trsProgram) (res trsPTResult) {
 		}
 	}
 
+	if rootFlushFailed {
+		// the root's Close ran while the stream was open: its last flush failed, the tree cannot
+		// be completed; nothing further to compare (the error was reported to the caller)
+		res.implLine = ""
+		return res
+	}
 	if !rootClosed {
 		res.implLine = outcomes.String() + " | none | " + logStr
 		return res
@@ -612,6 +679,15 @@ func trsRunProgram(p *trsProgram) (res trsPTResult) {
 	}
 	defer rd.Close()
 
+	if streamRef != 0 {
+		got, err := rd.Get(streamRef, false)
+		stm, ok := got.(*pdf.Stream)
+		if err != nil || !ok {
+			fail("stream-other", "the stream that was open meanwhile reads back as %T, %v", got, err)
+		} else if body, err := pdf.ReadAll(rd, nil, stm, 1<<20); err != nil || string(body) != "q Q" {
+			fail("stream-other", "the stream that was open meanwhile holds %q, %v", body, err)
+		}
+	}
 	tw := &trsTreeWalk{rd: rd, seen: map[pdf.Reference]bool{}}
 	var sb strings.Builder
 	tw.walk(rd.GetMeta().Catalog.Pages, 0, 0, [4]string{"_", "_", "_", "_"}, &sb)
@@ -976,7 +1052,15 @@ func runC16(c *Ctx) {
 		if len(wire) > 0 {
 			ops = strings.Join(wire, ";")
 		}
-		c.Emit("TRS pt "+v+" "+ops+" "+res.hints, res.implLine)
+		if res.streamErrs > 0 {
+			c.StatN("flush_refused_while_stream_open", res.streamErrs)
+		}
+		if p.streamTo > p.streamFrom {
+			c.Stat("with_open_content_stream")
+		}
+		if res.implLine != "" {
+			c.Emit("TRS pt "+v+" "+ops+" "+res.hints, res.implLine)
+		}
 		if res.pages > 0 && res.pages <= 5 {
 			c.Sample("TRS pt " + v + " " + ops + " => " + res.implLine)
 		}
@@ -1020,6 +1104,44 @@ func runC16(c *Ctx) {
 	for i := 0; i < nBig; i++ {
 		emit(trsGenProgram(r.Fork(), 3000+r.Intn(2000), false), "big")
 	}
+	// part of the program runs while the caller has a content stream open on the pdf.Writer
+	// (AppendPageDict, NewRange, Close of sub-ranges; sometimes the root's Close, too)
+	nStream := 60
+	if c.Thorough {
+		nStream = 600
+	}
+	for i := 0; i < nStream; i++ {
+		target := 1 + r.Intn(14)
+		if r.P(1, 3) {
+			target = 15 + r.Intn(60)
+		}
+		p := trsGenProgram(r.Fork(), target, false)
+		for j := range p.ops {
+			if p.ops[j].kind == 'A' {
+				p.ops[j].kind = 'a'
+			}
+		}
+		rootClose := len(p.ops)
+		for j, o := range p.ops {
+			if o.kind == 'c' && o.h == 0 {
+				rootClose = j
+				break
+			}
+		}
+		p.streamFrom = r.Intn(rootClose + 1)
+		p.streamTo = p.streamFrom + 1 + r.Intn(rootClose-p.streamFrom+1)
+		if p.streamTo > rootClose && !r.P(1, 6) {
+			p.streamTo = rootClose // usually the stream is closed before the root is
+		}
+		if p.streamTo <= p.streamFrom {
+			p.streamFrom, p.streamTo = 0, rootClose
+		}
+		if p.streamTo == 0 {
+			continue
+		}
+		emit(p, "open-stream")
+	}
+
 	// range sizes around the powers of the fan-out
 	edge := []int{1, 2, 14, 15, 16, 17, 30, 31, 32, 239, 240, 241, 255, 256, 257, 271, 272}
 	nEdge := 60
